@@ -137,6 +137,20 @@ pub fn scenarios(cs: usize, fat: u8) -> Vec<Scenario> {
     add("create-through-dir-handle", vec![Op::OpenDir { dir: DirRef::Root, path: "dir one with a long name/e".into(), slot: Some(3) }], Target::Op(Op::CreateFile { dir: DirRef::H(3), path: "f/created through a handle.txt".into(), slot: Some(4) }), &mut v);
     add("set-times-flush", vec![Op::SetTimes { h: 1, which: 0, date: 0x5021, time: 0x6000, tenth: 7 }], Target::Op(Op::Flush { h: 1 }), &mut v);
     add("close-dir-handle(drop)", vec![Op::OpenDir { dir: DirRef::Root, path: "dir one with a long name".into(), slot: Some(3) }, Op::CreateFile { dir: DirRef::H(3), path: "x.txt".into(), slot: None }], Target::Op(Op::Close { h: 3 }), &mut v);
+    if fat != 32 {
+        // a completely full fixed root: create_dir reserves a cluster, finds no room for the entry and has to give the
+        // cluster back - device errors during that clean-up must surface as well
+        let mut full: Vec<Op> = Vec::new();
+        for i in 0..40 {
+            full.push(Op::CreateFile { dir: DirRef::Root, path: format!("filler number {:02} with a long name.bin", i), slot: None });
+        }
+        for i in 0..16 {
+            full.push(Op::CreateFile { dir: DirRef::Root, path: format!("F{}", i), slot: None });
+        }
+        v.push(Scenario { name: "create-dir-in-full-root".into(), setup: full.clone(), hint_from_end: None, target: Target::Op(cd("no room for this directory")) });
+        v.push(Scenario { name: "create-file-in-full-root".into(), setup: full.clone(), hint_from_end: None, target: Target::Op(cf("no room for this file either.txt", 3)) });
+        v.push(Scenario { name: "rename-in-full-root".into(), setup: full, hint_from_end: None, target: Target::Op(Op::Rename { sdir: DirRef::Root, src: "F1".into(), ddir: DirRef::Root, dst: "a longer name that does not fit.txt".into() }) });
+    }
     v.push(Scenario { name: "format".into(), setup: vec![], hint_from_end: None, target: Target::Format });
     if fat == 32 {
         // allocation scan that starts from a hint near the end and has to wrap around
@@ -230,6 +244,10 @@ pub fn run_scenario(img: &Image, sc: &Scenario, vc: &VolCfg, fault: Option<(u64,
         for (i, op) in sc.setup.iter().enumerate() {
             let o = exec(&fs, &mut hs, op, i as u64 + 1, &model);
             if let Some(ek) = o.ek {
+                // the fill-up scenarios run into the full directory on purpose
+                if ek == EK::NotEnoughSpace && sc.name.ends_with("-full-root") {
+                    continue;
+                }
                 return Err(format!("setup op {} failed: {}", op.show(), ek.name()));
             }
         }
@@ -414,7 +432,7 @@ pub fn run(args: &Args, rep: &mut Report) {
                 OPTS.with(|c| c.set(opt));
                 // fault-free run: number of device calls of the target
                 let clean = run_scenario(&img, &sc, vc, None, 50_000_000);
-                if clean.panic.is_some() || clean.ek != EK::Ok && !matches!(clean.ek, EK::NotFound | EK::DirectoryIsNotEmpty) {
+                if clean.panic.is_some() || clean.ek != EK::Ok && !matches!(clean.ek, EK::NotFound | EK::DirectoryIsNotEmpty | EK::NotEnoughSpace) {
                     rep.inconclusive.push(format!("{} / {}: fault-free run failed: {:?} {:?}", vc.label(), sc.name, clean.ek, clean.panic));
                     continue;
                 }
